@@ -13,7 +13,7 @@ CHECKS = {
    note="No MySQL / Postgres engine exists offline: the statement grammars (stmt_inv.rs) and expression grammars (parse.rs) are hand transcriptions of the manuals; constructs of uncertain status are counted as undecided, never reported.",
    ref="DESIGN.md 4/C08"),
  "C09": dict(
-   technique="proptest over portable statement specs; oracle = metamorphic / differential execution: the MySQL and Postgres renderings are transliterated token by token into SQLite spelling and all six texts (3 backends x 2 modes) are executed on the real SQLite engine, rows and table contents compared",
+   technique="proptest over portable statement specs; oracle = metamorphic / differential execution: the MySQL and Postgres renderings are transliterated token by token into SQLite spelling and all six texts (3 backends x 2 modes) are executed on the real SQLite engine, rows and table contents compared; the common outcome is additionally compared with an explicit reference rendering of the builder calls, so that a clause lost by all three backends alike is noticed",
    text="Exploration: 150 000 (quick) / 3 000 000 (thorough) statements from the portable subset (SELECT with joins, grouping, set operations incl. nested arms, NULLS / FIELD ordering, LIMIT / OFFSET, CTEs; INSERT VALUES / SELECT / default row; UPDATE; DELETE), each rendered for the three backends in both modes and executed after a purely lexical transliteration; function names that the source dialect does not define are reported.",
    note="Only the structure the other backend produced is evaluated (on SQLite); no claim about MySQL / Postgres run-time semantics. Transliteration rules are listed in translit.rs; the portable subset excludes operators whose semantics differ between the engines.",
    ref="DESIGN.md 4/C09"),
@@ -29,7 +29,7 @@ CHECKS = {
    ref="DESIGN.md 4/C14"),
  "C07": dict(
    technique="proptest over executable statement specs; oracle = differential execution on the real SQLite engine against an independent, fully explicit reference rendering of the same spec (three runs per case: reference, inline, bound), rows and table contents compared",
-   text="Exploration: 40 000 (quick) / 1 200 000 (thorough) generated SELECT / INSERT / UPDATE / DELETE statements over a fixed four-table database, normalised by construction into the SQLite-valid, deterministic domain; each is executed as reference SQL, as to_string output and as build output with bound values on fresh copies of the database; results (sequences when ordered, multisets otherwise), RETURNING rows and table snapshots must agree; run-time failures must agree too. Also: self-referencing recursive CTEs in one terminating shape, derived and explicit CTE column lists, float values in arithmetic (part float-values).",
+   text="Exploration: 250 000 (quick) / 5 000 000 (thorough) generated SELECT / INSERT / UPDATE / DELETE statements over a fixed four-table database, normalised by construction into the SQLite-valid, deterministic domain; each is executed as reference SQL, as to_string output and as build output with bound values on fresh copies of the database; results (sequences when ordered, multisets otherwise), RETURNING rows and table snapshots must agree; run-time failures must agree too. Also: self-referencing recursive CTEs in one terminating shape, derived and explicit CTE column lists, WITH around INSERT / UPDATE / DELETE (a CTE shadowing the table the expression subqueries read, which the statement is made to read), float values in arithmetic (part float-values).",
    note="Oracle executor = system SQLite 3.40.1; reference renderer = stmt_ref.rs (shares nothing with sea-query). Engine-imposed determinism constraints are built into the generator (stmt_gen::fix_exec) and listed in the evidence; one SQLite 3.40.1 defect (RIGHT / FULL JOIN after a constant-false ON) is kept out of the domain. Also carries C02's engine clause (inline vs bound).",
    ref="DESIGN.md 4/C07"),
  "C11": dict(
@@ -89,7 +89,7 @@ CHECKS = {
    ref="DESIGN.md 4/C10"),
  "C04": dict(
    technique="bounded-exhaustive + proptest names at 73 identifier positions; oracle = independent dialect lexers (differential token-stream comparison against a benign reference name) + SQLite catalogue read-back",
-   text="Exploration: every non-empty name over {a \" ` ' \\ . space $ é} up to length 2 (quick) / 3 (thorough) at each of 73 identifier positions of query and schema statements on each backend that supports the position, plus random Unicode names. The rendered statement must lex, under the engine's rules, to the reference token stream with exactly the expected identifier token(s) decoding to the supplied name; on SQLite table / column / index / alias names are read back from the engine. The thorough tier adds a coverage-guided libFuzzer campaign (cargo-fuzz, 8 processes of fixed -runs) through the same oracle; its executions, edge coverage and samples are folded into the evidence file (coverage.fuzz_campaigns). 94 positions as of the last revision (SEARCH / CYCLE names, aliased schema.table forms, qualified tables in schema statements, ...), plus names of every length up to 400 (quick) / 2000 (thorough).",
+   text="Exploration: every non-empty name over {a \" ` ' \\ . space $ é} up to length 2 (quick) / 3 (thorough) at each of 95 identifier positions of query and schema statements on each backend that supports the position, plus random Unicode names. The rendered statement must lex, under the engine's rules, to the reference token stream with exactly the expected identifier token(s) decoding to the supplied name; on SQLite table / column / index / alias names are read back from the engine. The thorough tier adds a coverage-guided libFuzzer campaign (cargo-fuzz, 8 processes of fixed -runs) through the same oracle; its executions, edge coverage and samples are folded into the evidence file (coverage.fuzz_campaigns). 94 positions as of the last revision (SEARCH / CYCLE names, aliased schema.table forms, qualified tables in schema statements, ...), plus names of every length up to 400 (quick) / 2000 (thorough).",
    note="MySQL backtick and Postgres double-quote identifier rules are transcribed from the manuals; unquoted-by-design positions (Func::cust, Keyword::Custom, ColumnType::Custom) are out of scope; the derive fast path is covered by C19.",
    ref="DESIGN.md 4/C04"),
  "C03": dict(
